@@ -40,7 +40,11 @@ def main():
     res.append(harmless('loops2lean.py','cre: a >>= 1 ; sum += ',[('clifford/_layout_helpers.py',"        sum_value = sum_value + count_set_bits(a & bitmap_b)\n        a = a >> 1","        sum_value += count_set_bits(bitmap_b & a)\n        a >>= 1")]))
     res.append(harmless('kernels2lean.py','res factor order',[('clifford/__init__.py',"res = value[k_list] * mult_table_vals * other_value[m_list]","res = mult_table_vals * value[k_list] * other_value[m_list]")]))
     res.append(harmless('series2lean.py','sin coefficient (-1)**n * (1/gamma)',[('clifford/taylor_expansions.py',"op = op + ((-1) ** (n) / math.gamma(2 * n + 2)) * X2np1","op = op + ((-1) ** n / math.gamma(2 * n + 2)) * X2np1")]))
+    res.append(harmless('methods2lean.py','__pow__: newMV *= base',[('clifford/_multivector.py',"            newMV = newMV * base\n","            newMV *= base\n")]))
     CL='clifford/_conformal_layout.py'; L='clifford/_layout.py'; H='clifford/_layout_helpers.py'; I='clifford/__init__.py'
+    res.append(semantic('methods2lean.py','__pow__: range(other)',[('clifford/_multivector.py',"for i in range(1, other):\n            newMV = newMV * base","for i in range(other):\n            newMV = newMV * base")]))
+    res.append(semantic('methods2lean.py','__pow__: negative keeps base = self',[('clifford/_multivector.py',"            base = self.inv()\n            other = -other","            base = self\n            other = -other")]))
+    res.append(semantic('methods2lean.py','__pow__: product with self',[('clifford/_multivector.py',"            newMV = newMV * base\n","            newMV = newMV * self\n")]))
     res.append(semantic('mv2lean.py','up coeff .25',[(CL,".5 ^ ((x**2)*self.einf)",".25 ^ ((x**2)*self.einf)")]))
     res.append(semantic('mv2lean.py','einf sign',[(CL,"einf = en + ep","einf = en - ep")]))
     res.append(semantic('mv2lean.py','E0 swapped',[(CL,"E0 = einf ^ eo","E0 = eo ^ einf")]))
